@@ -32,6 +32,8 @@ GEOMS = {
         dict(bs=16384, W=4, cut=512, boff=512, doff=None),
         dict(bs=512, W=4, cut=0, boff=512, doff=None),
         dict(bs=1 << 20, W=3, cut=4096 + 512, boff=512, doff=2 << 20, big=True),
+        # blocks larger than 1 MiB (VirtualBox allows any power of two); whole-disk and multi-MiB requests over holes
+        dict(bs=2 << 20, W=3, cut=4096 + 512, boff=512, doff=4 << 20, big=True),
         # windows deep inside the block map (index thresholds such as 1024 / 4096 are typical chunk and cache sizes)
         dict(bs=4096, W=3, cut=512, boff=512, doff=None, at=1022),
         dict(bs=512, W=3, cut=0, boff=1024, doff=None, at=4094),
